@@ -561,3 +561,17 @@ Proof.
   exists [97;98;99;100], [88;88;88;88;88;88;88;88], false, 3%nat, [Resp 200 false [97;98;99;100] Full].
   vm_compute. repeat split; discriminate.
 Qed.
+
+(* ---------------------------------------------------------------- two calls with the download cache *)
+
+Theorem cached_target_only_if_match : forall size expected p1 l1 attempts s1 p2 l2 s2,
+  let r := download_twice size expected p1 l1 attempts s1 p2 l2 s2 in
+  (o_err (snd r) = ENone -> o_target (snd r) = Some expected) /\
+  (o_err (snd r) <> ENone -> o_target (snd r) = None).
+Proof.
+  intros size expected p1 l1 attempts s1 p2 l2 s2. cbv zeta. unfold download_twice.
+  destruct (o_err (download size expected p1 l1 attempts s1)) eqn:E1; cbn [snd o_err o_target].
+  - split; [intros _; now apply target_only_if_match | intro H; contradiction].
+  - split; [apply target_only_if_match | apply (failure_leaves_no_target true)].
+  - split; [apply target_only_if_match | apply (failure_leaves_no_target true)].
+Qed.
